@@ -1,4 +1,6 @@
 import Qats.Lemmas.WelchMain
+import Qats.Lemmas.WelchGen
+import Qats.Lemmas.WelchParsevalMain
 /-!
 # C13 — power spectral density is a one-sided density in Hz consistent with variance
 
@@ -8,8 +10,12 @@ Everything holds over any linearly ordered field and for an **arbitrary** instan
 `cos`, `sin`, `π` are: the discrete Fourier transform enters only as a linear map and the Hann window only as a list of
 weights.
 
-Not proved here (measured on the implementation by the harness): that the area under the density reproduces the
-variance of a stationary signal (Parseval's identity for the windowed estimator), the location of the peak for a
+The last section ("area under the spectrum") is over ℝ with the real `cos`, `sin`, `π` (`TranscOps ℝ` of
+`Qats/Lemmas/RealOps.lean`): the exact identity behind "the area under the density reproduces the variance"
+(Parseval's identity for the windowed estimator with one-sided folding).
+
+Not proved here (measured on the implementation by the harness): that the window-weighted mean square of a stationary
+signal is close to its variance (a statistical statement), the location of the peak for a
 dominant sinusoid, and the conformance of `scipy.signal.welch` to the explicit-DFT definition (correspondence).
 -/
 namespace Qats.Props.C13
@@ -180,5 +186,114 @@ example :
 /-- The hypotheses of `guard_rejects` are satisfiable: steps 1 and 3/2. -/
 example : (1 : Rat) ∈ diffs ([0, 1, 5/2] : List Rat) ∧ (3/2 : Rat) ∈ diffs ([0, 1, 5/2] : List Rat) ∧
     (1.0e-2 : Rat) * (3/2) + (1.0e-6 : Rat) < 3/2 - 1 := by decide +kernel
+
+/-! ### area under the spectrum (Parseval's identity; over ℝ with the real cosine, sine and π)
+
+`area df p = Σ_k p_k · df`, `binWidth nfft dt = 1/(nfft·dt)` (the frequency step of `freq_grid`),
+`sumSq l = Σ v²`, `weightedMeanSquare w a = Σ a² / Σ w²`, `meanWeightedMeanSquare w nov x` = mean over Welch's
+segments `a = w · (seg − mean seg)` of `weightedMeanSquare w a` (`Qats/Model/WelchArea.lean`). -/
+
+/-- What the abbreviations stand for. -/
+theorem area_unfold (df dt : ℝ) (p : List ℝ) (nfft : Nat) (w a : List ℝ) :
+    area df p = Welch.sum p * df ∧ binWidth nfft dt = 1 / ((nfft : ℝ) * dt) ∧
+      sumSq a = Welch.sum (a.map fun v => v * v) ∧ weightedMeanSquare w a = sumSq a / sumSq w :=
+  ⟨rfl, by rw [binWidth, one_lit], rfl, rfl⟩
+
+/-- Parseval's identity for the model's two-sided DFT sums (list `a` zero-padded to `N`):
+`Σ_{k<N} |X_k|² = N · Σ_n a_n²`. -/
+theorem parseval_two_sided (N : Nat) (hN : 0 < N) (a : List ℝ) (ha : a.length ≤ N) :
+    Welch.sum ((List.range N).map fun k =>
+      dftAux (cosTw N) k 0 a * dftAux (cosTw N) k 0 a + dftAux (sinTw N) k 0 a * dftAux (sinTw N) k 0 a) =
+      (N : ℝ) * sumSq a :=
+  parseval_two_sided' N hN a ha
+
+/-- One segment, any window `w`, any data `y` (in Welch's method: the mean-removed segment), any `nfft ≥ len w ≥ …`
+(`nfft = N` is the default; a larger `nfft` zero-pads), `dt ≠ 0`: the area under the one-sided density of the model,
+`Σ_k P_k · Δf` with `Δf = 1/(nfft·dt)`, is the window-weighted mean square `Σ_n (w_n y_n)² / Σ_n w_n²`.
+(Bins `k` and `nfft − k` carry equal power for real input; DC and, for even `nfft`, Nyquist are not doubled.) -/
+theorem segment_area_is_weighted_meansquare (w y : List ℝ) (nfft : Nat) (dt : ℝ) (hdt : dt ≠ 0) (hn : 1 ≤ nfft)
+    (hw : w.length ≤ nfft) :
+    area (binWidth nfft dt) ((List.range (nfft / 2 + 1)).map fun k =>
+      binPower (cosTw nfft) (sinTw nfft) nfft (densityScale ((1.0 : ℝ) / dt) w) k (applyWin w y)) =
+      sumSq (applyWin w y) / sumSq w :=
+  segment_area' w y nfft dt hdt hn hw
+
+/-- The averaged estimator: the area of the mean over the segments is the mean over the segments of the
+window-weighted mean squares (any window, any overlap, any signal, `nfft ≥ len w`). -/
+theorem core_area_is_mean_weighted_meansquare (w : List ℝ) (nfft : Nat) (dt : ℝ) (hdt : dt ≠ 0) (hn : 1 ≤ nfft)
+    (hw : w.length ≤ nfft) (noverlap : Nat) (x : List ℝ) :
+    area (binWidth nfft dt)
+      (welchCore (cosTw nfft) (sinTw nfft) w nfft (densityScale ((1.0 : ℝ) / dt) w) noverlap x) =
+      meanWeightedMeanSquare w noverlap x :=
+  welchCore_area' w nfft dt hdt hn hw noverlap x
+
+/-- `qats.signal.psd(x, dt, nperseg=, noverlap=, nfft=)`: whenever the call succeeds (`dt ≠ 0`), the area under the
+returned density, `Σ P · Δf` with `Δf = 1/(nfft·dt)`, equals the mean over the segments of
+`Σ(w·(seg − mean seg))² / Σw²` with the periodic Hann window of the segment length `min(nperseg, n)`. -/
+theorem welch_area_is_mean_weighted_meansquare (x : List ℝ) (dt : ℝ) (hdt : dt ≠ 0)
+    (nperseg noverlap nfft : Option Nat) (r : Psd ℝ) (h : welch x dt nperseg noverlap nfft = .ok r) (hx : x ≠ []) :
+    area (binWidth (nfft.getD (min (nperseg.getD 256) x.length)) dt) r.p =
+      meanWeightedMeanSquare (hann (min (nperseg.getD 256) x.length))
+        (noverlap.getD (min (nperseg.getD 256) x.length / 2)) x :=
+  welch_area' x dt hdt nperseg noverlap nfft r h hx
+
+/-- `TimeSeries.psd` (not normalised; mean time step `≠ 0`): the same, in the units of `x²`, with `dt` the mean time
+step and the segment length defaulting to a quarter of the signal. -/
+theorem psd_area_ts (t x : List ℝ) (hdt : mean (diffs t) ≠ 0) (nperseg noverlap nfft : Option Nat) (r : Psd ℝ)
+    (h : psdTs t x nperseg noverlap nfft false = .ok r) (hx : x ≠ []) :
+    area (binWidth (nfft.getD (min (nperseg.getD (x.length / 4)) x.length)) (mean (diffs t))) r.p =
+      meanWeightedMeanSquare (hann (min (nperseg.getD (x.length / 4)) x.length))
+        (noverlap.getD (min (nperseg.getD (x.length / 4)) x.length / 2)) x :=
+  psdTs_area' t x hdt nperseg noverlap nfft r h hx
+
+/-- The pair evaluated by the driver op `psd.area` (`welchArea` = (area of the estimate, mean weighted mean square))
+has equal components over ℝ. -/
+theorem welch_area_pair (x : List ℝ) (dt : ℝ) (hdt : dt ≠ 0) (nperseg noverlap nfft : Option Nat) (p : ℝ × ℝ)
+    (h : welchArea x dt nperseg noverlap nfft = .ok p) (hx : x ≠ []) : p.1 = p.2 :=
+  welchArea_eq' x dt hdt nperseg noverlap nfft p h hx
+
+/-- Non-vacuity: the hypotheses of `parseval_two_sided`, `segment_area_is_weighted_meansquare`,
+`core_area_is_mean_weighted_meansquare` (Hann window of length 4, `dt = 1/2`, `nfft = 4`). -/
+example : (0 < 4) ∧ ([0, 1/2, 1, 1/2] : List ℝ).length ≤ 4 ∧ ((1/2 : ℝ) ≠ 0) ∧ 1 ≤ 4 := by
+  refine ⟨by norm_num, by simp, by norm_num, by norm_num⟩
+
+/-- Non-vacuity of `welch_area_is_mean_weighted_meansquare` / `welch_area_pair`: a successful call with `dt = 1/2`. -/
+example : (∃ r, welch ([1, 0, -1, 0, 1, 0, -1, 0] : List ℝ) (1/2) (some 4) none none = .ok r) ∧ (1/2 : ℝ) ≠ 0 ∧
+    ([1, 0, -1, 0, 1, 0, -1, 0] : List ℝ) ≠ [] := by
+  refine ⟨(psd_defined_iff _ _ _ _ _ (by simp)).mpr (by simp), by norm_num, by simp⟩
+
+/-- Non-vacuity of `psd_area_ts`: a uniformly sampled series of four samples, step 1. -/
+example : (∃ r, psdTs ([0, 1, 2, 3] : List ℝ) [1, 0, -1, 0] none none none false = .ok r) ∧
+    mean (diffs ([0, 1, 2, 3] : List ℝ)) ≠ 0 := by
+  constructor
+  · obtain ⟨r, hr, _⟩ := default_accepted ([0, 1, 2, 3] : List ℝ) [1, 0, -1, 0] false 1 (by simp) (by simp)
+      (by intro d hd; simp [diffs] at hd; rcases hd with rfl | rfl | rfl <;> norm_num)
+    exact ⟨r, hr⟩
+  · simp [diffs, mean, Welch.sum]
+
+/-- The identity evaluated exactly (rationals, the 4-point transform `c4, s4`, Hann window of length 4, `dt = 1/2`,
+three half-overlapping segments of the signal of the first example): densities `1/3, 2/3, 1/3`, `Δf = 1/2`, area
+`2/3` = mean over the segments of `Σ(w·y)²/Σw² = 1/(3/2)`. -/
+example :
+    area (binWidth 4 (1/2 : Rat)) (welchCore c4 s4 [0, 1/2, 1, 1/2] 4 (densityScale 2 [0, 1/2, 1, 1/2]) 2
+      ([1, 0, -1, 0, 1, 0, -1, 0] : List Rat)) = 2/3 ∧
+    meanWeightedMeanSquare [0, 1/2, 1, 1/2] 2 ([1, 0, -1, 0, 1, 0, -1, 0] : List Rat) = 2/3 := by decide +kernel
+
+/-! ### the model's sampling frequency and default segment are the ones written in the source (regenerated on every run) -/
+
+/-- `signal.psd` is the estimator at the sampling frequency the source hands to `scipy.signal.welch` (`Qats.Gen.psd_fs`,
+regenerated from `qats/signal.py` by the translator on every run: `fs=dt` or a dropped reciprocal fail this proof). -/
+theorem welch_fs_is_source (x : List ℝ) (dt : ℝ) (nperseg noverlap nfft : Option Nat) :
+    welch x dt nperseg noverlap nfft = welchWith cosTw sinTw hann x (Qats.Gen.psd_fs dt) nperseg noverlap nfft :=
+  welch_fs_is_source' x dt nperseg noverlap nfft
+
+/-- … which is the reciprocal of the time step (so that the estimate is a density per Hz, `psd_time_unit`). -/
+theorem psd_fs_reciprocal (dt : ℝ) : Qats.Gen.psd_fs dt = dt⁻¹ :=
+  psd_fs_reciprocal' dt
+
+/-- The default segment length `int(0.25 * x.size)` of `TimeSeries.psd` (regenerated argument of `int`) is the model's
+`⌊n / 4⌋`: a quarter of the signal. -/
+theorem default_nperseg_is_source (n : Nat) : ⌊Qats.Gen.psd_nperseg_frac (n : ℝ)⌋₊ = n / 4 :=
+  default_nperseg_is_source' n
 
 end Qats.Props.C13
